@@ -20,7 +20,8 @@ LEVEL_NOTE = ("Trusts MPF's EventManager (C01), DelayManager/clock (C13) and mod
 TECHNIQUE = ("runtime monitoring: model-based differential testing of the real devices at the event boundary "
              "(posted control events in, hit/complete/timeout events and value/enabled/completed out)")
 RULE = ("case = 1-3 generated logic blocks (counter/accrual/sequence; direction, interval, start, goal, "
-        "reset/disable on complete, hit window, timeout, custom event lists, shared events, persist_state in a mode) "
+        "reset/disable on complete, hit window, timeout, custom event lists, shared events, persist_state in a mode, "
+        "delays of 100/500/1500 ms on control events in 30% of the blocks with 2-4 of the same event inside the delay) "
         "plus 25-120 steps, each a burst of 1-4 events posted in one tick followed by a virtual-time gap (0, small, "
         "or aimed at a pending window/timeout deadline +-0/1/10 ms); distinct = block-type/config-class signature x "
         "sequence of model outcomes (accepted / rejected-disabled / rejected-window / rejected-order / completed / "
@@ -46,6 +47,10 @@ ASSUMPTIONS = [
     "order of several hit events caused by ONE event on several accrual steps is not checked",
     "mode start/stop/ball end are issued in their own tick with a settle gap (mode life cycle itself is C07)",
     "logicblock_*_updated events are not judged (the statement does not mention them)",
+    "delayed control events (`count_events: {ev: 500ms}`, also enable/disable/reset/restart/advance_random): every "
+    "posted event is applied on its own at post time + delay; a delayed event of a mode block whose mode stopped "
+    "meanwhile is never applied, and none is scheduled while the mode is not running; applications due within 2 us "
+    "of each other, of a window/timeout instant or of the next burst are accepted in either order",
     "machine-wide blocks: the deadline of the timeout clock started during boot is read from the device's "
     "DelayManager (adopted, not judged); every later deadline is computed by the model",
 ]
@@ -57,10 +62,11 @@ TIERS = {
 MIN_EVALS = {
     "quick": {"state": 200000, "hit_events": 130000, "hits_rejected": 90000, "completion": 15000,
               "after_complete": 9000, "window": 20000, "timeout": 100000, "sequence_order": 15000,
-              "accrual_steps": 15000, "mode_restart": 3000, "persist": 1000, "no_crash": 100000},
+              "accrual_steps": 15000, "mode_restart": 3000, "persist": 1000, "no_crash": 100000, "delayed": 30000},
     "thorough": {"state": 8000000, "hit_events": 5000000, "hits_rejected": 3300000, "completion": 580000,
                  "after_complete": 330000, "window": 750000, "timeout": 4000000, "sequence_order": 580000,
-                 "accrual_steps": 580000, "mode_restart": 100000, "persist": 33000, "no_crash": 4000000},
+                 "accrual_steps": 580000, "mode_restart": 100000, "persist": 33000, "no_crash": 4000000,
+                 "delayed": 1000000},
 }
 SHRINK_KEYS = ["ops"]
 # mechanisms already triaged as genuine defects of the unchanged tree (reported last so that anything new is replayed)
@@ -146,6 +152,15 @@ def _gen_block(rng, name, in_mode, shared):
             used.add(x)
             rng.choice(b["steps"]).append(x)
     b["ev"] = ev
+    # delayed control events (`count_events: {ev: 500ms}`): every posted event is applied `delay` later on its own
+    delays = {}
+    if rng.random() < 0.3:
+        for role in sorted(ev):
+            if rng.random() < (0.8 if role in ("count", "random") else 0.35):
+                for e in ev[role]:
+                    if rng.random() < 0.8:
+                        delays[e] = rng.choice([100, 500, 500, 1500])
+    b["delays"] = delays
     return b
 
 
@@ -177,6 +192,10 @@ def gen_case(rng, tier, index):
                  "add": 1, "subtract": 1, "jump": 1}[role]
             pool.extend([e] * w)
     pool.sort()
+    delayed_events = sorted(set(e for b in blocks for e in (b.get("delays") or {}) if e in pool))
+    delayed_events = [e for e in delayed_events
+                      if any(r[0] in ("count", "random") for b in blocks for r in specs[b["name"]].roles.get(e, ()))] \
+        or delayed_events
 
     # light simulation of the primary model path to aim gaps at pending deadlines
     t = 0.001
@@ -229,6 +248,13 @@ def gen_case(rng, tier, index):
                 burst = [rng.choice(pool) for _ in range(k)]
                 if rng.random() < 0.1:
                     burst = burst + burst[:1]       # same event twice in one tick
+                if delayed_events and rng.random() < 0.25:
+                    # several of the same delayed control event inside its delay (same tick / following ticks)
+                    e = rng.choice(delayed_events)
+                    if rng.random() < 0.5:
+                        burst = [e] * rng.randint(2, 4)
+                    else:
+                        burst = [e] + burst[:1]
                 _sim_primary(specs, cands, t, burst, mode_on, 1)
                 # gap
                 deadlines = []
@@ -238,6 +264,9 @@ def gen_case(rng, tier, index):
                         for d in (s.win, s.tmo):
                             if d is not None and d > t:
                                 deadlines.append(d)
+                    for p in s.pend:
+                        if p[0] > t:
+                            deadlines.append(p[0])
                 g = rng.random()
                 if g < 0.22:
                     gap = 0
@@ -255,7 +284,10 @@ def gen_case(rng, tier, index):
         ops.append(op)
         t2 = t + op["gap"] / 1000.0
         for name, sp in specs.items():
-            cands[name] = [y for x in cands[name][:1] for y in M.run_timers(sp, x, t2)][-1:]
+            try:
+                cands[name] = [y for x in cands[name][:1] for y in M.run_timers(sp, x, t2)][-1:]
+            except M.ModelOverflow:
+                pass
         t = t2
     return {"in_mode": in_mode, "players": players, "blocks": blocks, "ops": ops}
 
@@ -264,10 +296,17 @@ def gen_case(rng, tier, index):
 def _block_cfg(b):
     c = {}
     ev = b.get("ev") or {}
+    delays = b.get("delays") or {}
+
+    def evs(lst):
+        if any(delays.get(e) for e in lst):
+            return {e: ("%dms" % delays[e]) if delays.get(e) else 0 for e in lst}      # dict form {event: delay}
+        return ", ".join(lst)
+
     for role, key in (("enable", "enable_events"), ("disable", "disable_events"), ("reset", "reset_events"),
                       ("restart", "restart_events")):
         if ev.get(role):
-            c[key] = ", ".join(ev[role])
+            c[key] = evs(ev[role])
     c["reset_on_complete"] = bool(b.get("roc", True))
     c["disable_on_complete"] = bool(b.get("doc", True))
     if b.get("persist"):
@@ -281,7 +320,7 @@ def _block_cfg(b):
     if b.get("complete_events"):
         c["events_when_complete"] = ", ".join(b["complete_events"])
     if b["type"] == "counter":
-        c["count_events"] = ", ".join(ev["count"])
+        c["count_events"] = evs(ev["count"])
         c["direction"] = b.get("dir", "up")
         c["count_interval"] = b.get("interval", 1)
         c["starting_count"] = b.get("start", 0)
@@ -294,7 +333,7 @@ def _block_cfg(b):
     else:
         c["events"] = [", ".join(s) for s in b["steps"]]
         if ev.get("random"):
-            c["advance_random_events"] = ", ".join(ev["random"])
+            c["advance_random_events"] = evs(ev["random"])
     return c
 
 
@@ -321,7 +360,7 @@ def _count_kind(sp, evs):
     return h, c, to
 
 
-def _classify(sp, prim, obs, dev_state, since_restart, burst_roles):
+def _classify(sp, prim, obs, dev_state, since_restart, pending_before):
     """Name the mechanism by diffing the observation against the model's preferred successor."""
     nh = max(1, len(sp.hit_events))
     nc = max(1, len(sp.complete_events))
@@ -329,6 +368,8 @@ def _classify(sp, prim, obs, dev_state, since_restart, burst_roles):
     oh, oc, oto = _count_kind(sp, obs)
     notes = prim.notes
     if not prim.alive and (oh or oc or oto):
+        if pending_before and not oto:
+            return "delayed", "C18:delayed_control_event_applied_after_mode_stop"
         if oto:
             return "timeout", "C18:timer_survives_mode_stop"
         return "hit_events", "C18:events_while_mode_stopped"
@@ -353,6 +394,8 @@ def _classify(sp, prim, obs, dev_state, since_restart, burst_roles):
             return "accrual_steps", "C18:accrual_step_hit_twice"
         return "hit_events", "C18:extra_hit_event"
     if oh < eh:
+        if "delayed_applied" in notes:
+            return "delayed", "C18:delayed_control_event_lost"
         if "window_closed" in notes or (since_restart and sp.W):
             return "window", "C18:hit_rejected_outside_window"
         if sp.W and "hit_accepted" in notes:
@@ -399,11 +442,13 @@ def run_case(case):
     from vlib.boot import VMachine, MpfCrash
 
     clauses = {k: 0 for k in ("state", "hit_events", "hits_rejected", "completion", "after_complete", "window",
-                              "timeout", "sequence_order", "accrual_steps", "mode_restart", "no_crash", "persist")}
+                              "timeout", "sequence_order", "accrual_steps", "mode_restart", "no_crash", "persist",
+                              "delayed")}
     obs_stats = {"events_recorded": 0, "steps": 0, "bursts": 0, "posts": 0, "timeouts_seen": 0, "completions_seen": 0,
                  "hits_seen": 0, "forks_max": 0, "seq_wrap_double_observed": 0, "tie_steps": 0, "blocks": 0,
                  "aborted_blocks": 0, "timeout_of_disabled_block_observed": 0,
-                 "ctrl_applied_while_disabled_observed": 0, "mode_starts": 0, "mode_stops": 0, "ball_ends": 0}
+                 "ctrl_applied_while_disabled_observed": 0, "delayed_scheduled": 0,
+                 "delayed_pending_max": 0, "mode_starts": 0, "mode_stops": 0, "ball_ends": 0}
     violations = []
     shape_parts = []
     trace = []
@@ -562,7 +607,7 @@ def run_case(case):
             for name in sorted(active):
                 sp = specs[name]
                 cs = cands[name]
-                prim_before = cs[0]
+                prim_before = cs[0].copy()
                 for c in cs:
                     c.out = []
                     c.notes = []
@@ -593,7 +638,12 @@ def run_case(case):
                     obs_stats["aborted_blocks"] += 1
                     continue
                 # ---- model: timers up to t2
-                cs = M.dedupe([y for x in cs for y in M.run_timers(sp, x, t2)])
+                try:
+                    cs = M.dedupe([y for x in cs for y in M.run_timers(sp, x, t2)])
+                except M.ModelOverflow:
+                    active.discard(name)
+                    obs_stats["aborted_blocks"] += 1
+                    continue
                 obs_stats["forks_max"] = max(obs_stats["forks_max"], len(cs))
                 if len(cs) > M.MAX_CANDS:
                     active.discard(name)
@@ -629,7 +679,7 @@ def run_case(case):
                     prim = cs[0]
                     t_ref = min([a for a, b_, _ in ob if b_ == sp.timeout_event] or [t])
                     clause, sig = _classify(sp, prim, ob, ds if prim.alive else None, since_restart_f(name, t_ref),
-                                            burst)
+                                            bool(prim_before.pend))
                     violations.append({"clause": clause, "sig": sig, "detail": {
                         "block": sp.b, "step": idx, "op": op, "t": t, "t_end": t2,
                         "observed_events": [[round(a, 6), b_, list(k) if k else None] for a, b_, k in ob],
@@ -659,6 +709,9 @@ def run_case(case):
                 clauses["window"] += notes.count("hit_rejected_window") + notes.count("window_closed")
                 if sp.T and prim.alive:
                     clauses["timeout"] += notes.count("timeout_fired") + notes.count("timer_cancelled")
+                clauses["delayed"] += notes.count("delayed_applied") + notes.count("delayed_dropped_by_mode_stop")
+                obs_stats["delayed_scheduled"] += notes.count("delayed_scheduled")
+                obs_stats["delayed_pending_max"] = max(obs_stats["delayed_pending_max"], len(prim.pend))
                 if "restored" in notes or "fresh" in notes:
                     clauses["mode_restart"] += 1
                     if "restored" in notes:
@@ -675,7 +728,8 @@ def run_case(case):
                     {"hit_accepted": "A", "hit_rejected_disabled": "D", "hit_rejected_window": "W",
                      "hit_rejected_order": "O", "hit_rejected_repeat": "R", "completed": "C",
                      "complete_suppressed": "S", "timeout_fired": "T", "window_closed": "w", "restored": "P",
-                     "fresh": "F", "ctrl_applied": "c", "hit_while_completed": "K"}.get(x, "") for x in notes)))
+                     "fresh": "F", "ctrl_applied": "c", "hit_while_completed": "K", "delayed_applied": "L",
+                     "delayed_scheduled": "l", "timer_tie": "t"}.get(x, "") for x in notes)))
                 if tag:
                     shape_parts.append(name[-1] + tag)
             if len(trace) < 400:
